@@ -723,17 +723,22 @@ def _quadrature_matrix(repo, res, ru, cq):
                 it.overrides["ufl.measure.point_integral_types"] = ("vertex",)
                 it.overrides["ufl.custom_integral_types"] = ("cutcell", "interface", "overlap", "custom")
                 it.overrides["logger"] = Node("Logger", exception=_PyCall(lambda *a: None), info=_PyCall(lambda *a: None))
-                cell = Node("Cell", cellname=cname, facet_types=[Node("Cell", cellname=f_) for f_ in facets[cname]],
-                            ridge_types=[Node("Cell", cellname=r_) for r_ in ridges.get(cname, [])])
+                tdims = {"vertex": 0, "interval": 1, "triangle": 2, "quadrilateral": 2, "tetrahedron": 3, "hexahedron": 3, "prism": 3, "pyramid": 3}
+
+                def mkcell(n_):
+                    return Node("Cell", cellname=n_, topological_dimension=tdims[n_], geometric_dimension=tdims[n_])
+                cell = mkcell(cname)
+                cell.f["facet_types"] = [mkcell(f_) for f_ in facets[cname]]
+                cell.f["ridge_types"] = [mkcell(r_) for r_ in ridges.get(cname, [])]
                 try:
-                    out = it.call_f(cq, [itype, cell, 3, "default", ["el"]], {"use_tensor_product": tp})
+                    out = it.call_f(cq, [itype, cell, 3, "GLL", ["el"]], {"use_tensor_product": tp})
                     pts, wts, tf = plain(out[0]), plain(out[1]), plain(out[2])
                 except Raised as e:
                     res.fail(key, f"create_quadrature_points_and_weights({itype!r}, {cname}, use_tensor_product={tp}) raises ({e.what})", ru.line(cq.node))
                     continue
                 ents = {"cell": [cname], "exterior_facet": facets[cname], "interior_facet": facets[cname], "vertex": ["vertex"],
                         "ridge": ridges.get(cname, []), "expression": []}[itype]
-                if any(c_[1:] != (3, "default", ["el"]) for c_ in calls):
+                if any(c_[1:] != (3, "GLL", ["el"]) for c_ in calls):
                     res.fail(key, f"the rule is not built for the requested degree / scheme / elements: create_quadrature called with {calls[:2]}", ru.line(cq.node))
                 ndir = {"quadrilateral": 2, "hexahedron": 3}.get(cname)
                 if itype == "cell" and tp and ndir:
